@@ -832,7 +832,11 @@ func (k *c16Checker) check(cs *c16Case, label string, kinds []string, exp *c16Ex
 		got.add(p, 1, "")
 		got.dropZero()
 		if class, what := c16DiffW(got, exp.W, []int{0, 1}); class != "" {
-			ok = viol("C16/weights/"+class, what)
+			if cs.Units {
+				ok = viol("C16/units/converted-sum", what+fmt.Sprintf(" (values converted to the finest units %s/%s)", exp.Finest[0], exp.Finest[1]))
+			} else {
+				ok = viol("C16/weights/"+class, what)
+			}
 		}
 		if strings.Join(p.Comments, " ") != strings.Join(exp.Comments, " ") {
 			gs, ws := append([]string{}, p.Comments...), append([]string{}, exp.Comments...)
